@@ -8,6 +8,7 @@ import (
 	"fmt"
 	"runtime"
 	"sync"
+	"sync/atomic"
 )
 
 // Interface is a type that performs an operation on itself, returning any error.
@@ -22,6 +23,7 @@ type Processor struct {
 	stop    chan struct{}
 	work    chan struct{}
 	threads int
+	exited  int32
 	wg      *sync.WaitGroup
 }
 
@@ -54,7 +56,7 @@ func NewProcessor(queue chan Operator, buffer int, threads int) (p *Processor) {
 					p.out <- Result{nil, fmt.Errorf("concurrent: processor panic: %v", err)}
 				}
 				p.work <- struct{}{}
-				if len(p.work) == p.threads {
+				if atomic.AddInt32(&p.exited, 1) == int32(p.threads) {
 					close(p.out)
 				}
 				p.wg.Done()
